@@ -742,6 +742,7 @@ def l3_gen(seed, families):
             probes += 1
 
     nptr = [0]
+    filevars = {}       # file-scope variables with external linkage: name -> value
     # arrays declared twice in ONE scope: `extern char N[];` first, the size later (same scope, any number of other
     # declarations in between). The second declaration must win: sizeof(N) is the size it gave.
     anames = ["ar%d_%d" % (seed % 1000, k) for k in range(r.pick([1, 2, 4]))]
@@ -805,7 +806,10 @@ def l3_gen(seed, families):
             lines.append("%stypedef char %s[%d];" % (ind, n, v))
             ordinary[-1][n] = ("typedef", v)
         elif k == 1:
-            lines.append("%s%sint %s = %d;" % (ind, "static " if r.below(4) == 0 else "", n, v))
+            st_ = r.below(4) == 0
+            lines.append("%s%sint %s = %d;" % (ind, "static " if st_ else "", n, v))
+            if at_file_scope and not st_:
+                filevars[n] = v
             ordinary[-1][n] = ("var", v)
         elif k == 2:
             lines.append("%senum { %s = %d };" % (ind, n, v))
@@ -857,8 +861,31 @@ def l3_gen(seed, families):
             probe(n)   # what was shadowed must be visible again
 
     def body(nops):
+        nonlocal probes
         for _ in range(nops):
-            x = r.below(13)
+            x = r.below(15)
+            if x == 13:
+                # labels are a name table per function: the same label name in several functions, jumped to forwards and
+                # backwards (and, from the decoys, labels nobody jumps to)
+                n = r.pick(names)
+                if (n, len(funcs)) not in labels:
+                    labels.add((n, len(funcs)))
+                    v = val()
+                    if r.below(2):
+                        lines.append("  { int gl = 0; goto %s; gl = 50; %s: gl += %d; line = line ? line : (gl != %d ? __LINE__ : 0); }" % (n, n, v, v))
+                    else:
+                        lines.append("  { int gl = 0; %s: gl += %d; if (gl < %d) goto %s; line = line ? line : (gl != %d ? __LINE__ : 0); }" % (n, v, 2 * v, n, 2 * v))
+                    probes += 1
+                continue
+            if x == 14:
+                # `extern int N;` in a block: the file-scope object, whatever hides it at the moment (a parameter, an automatic or
+                # a static local, a typedef ...)
+                cands = [n for n in filevars if n not in ordinary[-1] and len(ordinary) > 1]
+                if cands:
+                    n = r.pick(cands)
+                    lines.append("  extern int %s;" % n)
+                    ordinary[-1][n] = ("var", filevars[n])
+                continue
             if x < 4:
                 declare(r.pick(names), False)
             elif x < 7:
